@@ -102,6 +102,56 @@ def fit(prog: Program, res: Result) -> None:
                     res.bad("FIT", F, desc, prog.loc(fi, n), how1 if ok1 is False else how2)
                 else:
                     res.undecided("FIT", F, desc, prog.loc(fi, n), how1 if ok1 is None else how2)
+    # the same formulas behind a helper of the module:  normresidual, fit = helper(normX, <norm of M>, <inner product>)
+    for a in ast.walk(fi.node):
+        if not (isinstance(a, ast.Assign) and isinstance(a.targets[0], ast.Tuple) and len(a.targets[0].elts) == 2 and isinstance(a.value, ast.Call)
+                and isinstance(a.value.func, ast.Name) and f"{fi.module}.{a.value.func.id}" in prog.functions):
+            continue
+        names = [e.id if isinstance(e, ast.Name) else None for e in a.targets[0].elts]
+        if set(names) != {"normresidual", "fit"}:
+            continue
+        helper = prog.functions[f"{fi.module}.{a.value.func.id}"]
+        params = helper.params()
+        if len(params) != len(a.value.args):
+            continue
+        roles_h: Dict[str, sp.Symbol] = {}
+        site = None
+        for p_, arg in zip(params, a.value.args):
+            t_ = ast.unparse(fi.resolve(arg, keep=("normX", "iprod", "M"))).replace(" ", "")
+            if t_ == "normX":
+                roles_h[p_] = nX
+            elif t_ in ("M.norm()",):
+                roles_h[p_] = nM
+            elif t_ == "iprod":
+                roles_h[p_] = ip
+                site = "in the iteration"
+            elif t_ == "input_tensor.innerprod(M)":
+                roles_h[p_] = ip
+                site = "in the final recomputation"
+        if len(roles_h) != 3 or site is None:
+            continue
+        k += 1
+        zero_name = next((p_ for p_, s_ in roles_h.items() if s_ is nX), None)
+        outcomes = _helper_returns(helper.node, zero_name)      # {"zero": (res expr, fit expr, locals), "nonzero": ...}
+        for branch, want_fit, want_res, label in (
+                ("zero", nM**2 - 2 * ip, nM**2 - 2 * ip, "data of norm 0: reported value == nM^2 - 2<X,M>"),
+                ("nonzero", 1 - sp.sqrt(sp.Abs(nX**2 + nM**2 - 2 * ip)) / nX, sp.sqrt(sp.Abs(nX**2 + nM**2 - 2 * ip)),
+                 "fit == 1 - sqrt(|nX^2 + nM^2 - 2<X,M>|) / nX and normresidual == sqrt(|...|)")):
+            desc = f"{label} ({site})"
+            if branch not in outcomes:
+                res.undecided("FIT", F, desc, prog.loc(fi, a), f"helper {helper.name}: branch not recognised")
+                continue
+            exprs, local_defs = outcomes[branch]
+            order = {n_: i_ for i_, n_ in enumerate(names)}
+            e_res, e_fit = exprs[order["normresidual"]], exprs[order["fit"]]
+            ok1, how1 = A.formula_equals(e_fit, roles_h, want_fit, local_defs)
+            ok2, how2 = A.formula_equals(e_res, roles_h, want_res, local_defs)
+            if ok1 is True and ok2 is True:
+                res.ok("FIT", F, desc, prog.loc(fi, a), f"via {helper.name}: {how1}")
+            elif ok1 is False or ok2 is False:
+                res.bad("FIT", F, desc, prog.loc(fi, a), f"via {helper.name}: " + (how1 if ok1 is False else how2))
+            else:
+                res.undecided("FIT", F, desc, prog.loc(fi, a), how1 if ok1 is None else how2)
     # inner product from the saved MTTKRP of the last mode, weights applied
     desc = "<X,M> uses the MTTKRP saved for the LAST mode of dimorder, the matching factor and the weights"
     defs = A.single_defs(fi.node)
@@ -154,6 +204,40 @@ def fit(prog: Program, res: Result) -> None:
         res.undecided("FIT", F, desc, prog.loc(fi), str(nx))
 
 
+def _helper_returns(fn: ast.FunctionDef, zero_name):
+    """For a helper `def h(nx, nm, ip)` returning a pair: the returned expressions on the `nx == 0` side and on the other side,
+    with the straight-line local definitions in force at each return."""
+    out = {}
+
+    def walk(body, defs, branch):
+        defs = dict(defs)
+        for st in body:
+            if isinstance(st, ast.Assign) and len(st.targets) == 1 and isinstance(st.targets[0], ast.Name):
+                defs[st.targets[0].id] = st.value
+            elif isinstance(st, ast.If):
+                t = ast.unparse(st.test).replace(" ", "")
+                if zero_name and t in (f"{zero_name}==0", f"0=={zero_name}"):
+                    r1 = walk(st.body, defs, "zero")
+                    r2 = walk(st.orelse, defs, "nonzero") if st.orelse else False
+                    if r1 and not st.orelse:
+                        branch = "nonzero"      # the zero case returned: what follows is the other case
+                    elif r1 and r2:
+                        return True
+                elif zero_name and t in (f"{zero_name}!=0", f"{zero_name}>0"):
+                    r1 = walk(st.body, defs, "nonzero")
+                    r2 = walk(st.orelse, defs, "zero") if st.orelse else False
+                    if r1 and not st.orelse:
+                        branch = "zero"
+                    elif r1 and r2:
+                        return True
+            elif isinstance(st, ast.Return) and isinstance(st.value, ast.Tuple) and len(st.value.elts) == 2 and branch:
+                out[branch] = (list(st.value.elts), defs)
+                return True
+        return False
+    walk(fn.body, {}, None)
+    return out
+
+
 def gram(prog: Program, res: Result) -> None:
     fi = prog.func(F)
     desc = "Gram cache entry of mode n is refreshed immediately after U[n] is assigned"
@@ -184,8 +268,8 @@ def gram(prog: Program, res: Result) -> None:
     if not found:
         res.undecided("GRAM", F, desc, prog.loc(fi))
     desc = "the Hadamard product of the Gram matrices leaves out the mode being solved"
-    ys = [a for a in ast.walk(fi.node) if isinstance(a, ast.Assign) and isinstance(a.targets[0], ast.Name) and a.targets[0].id == "Y"
-          and "UtU" in ast.unparse(a.value)]
+    ys = [a for a in ast.walk(fi.node) if isinstance(a, ast.Assign) and isinstance(a.targets[0], ast.Name) and isinstance(a.value, ast.Call)
+          and (dotted(a.value.func) or "").split(".")[-1] == "prod" and kwarg(a.value, "where") is not None and const(kwarg(a.value, "axis")) == 2]
     if ys:
         t = fi.rtext(ys[0].value).replace(" ", "")
         if "i!=n" in t or "n!=i" in t:
